@@ -13,7 +13,7 @@ import itertools, json, os, signal, sys
 from tools import vlib
 
 PROP = "C20"
-GEN = []
+GEN = ["gen_diagram"]
 RULE = ("enumerated minimal shapes (every element class, recursion through named/unnamed Forward, shared sub-expressions, "
         "helpers) + seeded random grammar graphs, each x option tuples (vertical, show_results_names, show_groups, show_hidden) "
         "x {as built, streamlined}: real to_railroad on the railroad stand-in vs Model/Diagram.v (names, indices, bookmarks, "
@@ -250,6 +250,17 @@ def kind_of(e):
 def dump_graph(root):
     """-> (nodes: list of dicts in discovery order, index of id(element)), unmodelled: reason or None"""
     import pyparsing as pp
+    # DelimitedList._generateDefaultName streamlines its content as a side effect, which can flatten Ands elsewhere in
+    # the graph: force every default name first (until the set of reachable objects is stable), then dump
+    for _ in range(4):
+        seen, stack = {}, [root]
+        while stack:
+            e = stack.pop()
+            if id(e) in seen:
+                continue
+            seen[id(e)] = e
+            e.default_name
+            stack.extend(e.recurse())
     order, ids, unmodelled = [], {}, None
     stack = [root]
     while stack:
@@ -306,10 +317,10 @@ def coq_opts(o):
 
 
 PREAMBLE = """From Coq Require Import List NArith Arith Bool.
-From PP Require Import Model.Str Model.Diagram.
+From PP Require Import Model.Str Model.Diagram Gen.GenDiagram.
 Import ListNotations.
 Definition run (G : graph) (o : opts) (fuel : nat) :=
-  match to_railroad G o 0 fuel with
+  match to_railroad G o REPEAT_FIX 0 fuel with
   | (Ok l, st) => (1, map (fun d => (od_name d, od_index d, od_bookmark d, od_item d)) l, c_maxdepth st, c_err st)
   | (OutOfFuel, st) => (0, [], c_maxdepth st, c_err st)
   end.
@@ -738,25 +749,41 @@ def stopper_free_cycle(nodes, o):
         if n["kind"] == "KEmpty" and not n["custom"]:
             return True
         return False
-    # the converter only follows exprs[0] of a by-passed Forward (== all its kids), and all kids otherwise
+    def blocks(i):      # never expanded at all
+        n = nodes[i]
+        bypass = n["kind"] == "KFwd" and not n["custom"] and n["kids"]
+        return not bypass and ((not n["show"] and not o["hidden"]) or (n["kind"] == "KEmpty" and not n["custom"]))
+    reach, stack = set(), [0]
+    while stack:
+        i = stack.pop()
+        if i in reach:
+            continue
+        reach.add(i)
+        if not blocks(i):
+            stack.extend(nodes[i]["kids"])
+    free = set(i for i in reach if not stopper(i))
+    # cycle detection (iterative colouring) in the sub-graph induced by `free`
     color = {}
-
-    def dfs(i):
-        color[i] = 1
-        if not stopper(i):
-            for c in nodes[i]["kids"]:
-                if color.get(c) == 1 and not stopper(c):
+    for s in sorted(free):
+        if s in color:
+            continue
+        color[s] = 1
+        st = [(s, iter(nodes[s]["kids"]))]
+        while st:
+            i, it = st[-1]
+            for c in it:
+                if c not in free:
+                    continue
+                if color.get(c) == 1:
                     return True
-                if c not in color and dfs(c):
-                    return True
-        color[i] = 2
-        return False
-    old = sys.getrecursionlimit()
-    sys.setrecursionlimit(10000)
-    try:
-        return dfs(0)
-    finally:
-        sys.setrecursionlimit(old)
+                if c not in color:
+                    color[c] = 1
+                    st.append((c, iter(nodes[c]["kids"])))
+                    break
+            else:
+                color[i] = 2
+                st.pop()
+    return False
 
 
 def make_case(label, spec, root, o, streamline):
